@@ -251,6 +251,14 @@ class Executor:
             return False
         self.ctx.stats['feasibility_queries'] += 1
         from .solve import _has_quantifier
+        # a kind test on a member read `H.f:name[...]` whose heap array no assumption mentions: nothing is known
+        # about that value, so no kind is entailed (answering "not entailed" is always sound)
+        t0 = f.arg(0) if z3.is_app(f) and f.num_args() == 1 and f.decl().name() == 'is' else None
+        if t0 is not None and z3.is_select(t0) and z3.is_const(t0.arg(0)) \
+                and t0.arg(0).decl().kind() == z3.Z3_OP_UNINTERPRETED:
+            nm0 = t0.arg(0).decl().name()
+            if not any(nm0 in _symbols(c) for c in st.pc):
+                return False
         if _has_quantifier(st.pc) and getattr(self.ctx, 'feasibility_ematch_only', False):
             # many quantified assumptions: (1) the ground part of the path condition alone, (2) instantiation only;
             # the default strategy would run into its timeout on every query that is not entailed
